@@ -30,12 +30,15 @@ Print Assumptions C16_sharp_without_close.
    destination when its source ends; the backend handler closes the websocket on every return after the upgrade (also
    when its dial fails) and the TCP connection after a successful dial; and nowhere in the bridge is a deadline, a read
    limit or a socket option set on a bridged connection - the models have no step that ends a connection by itself - and
-   the only goroutines are the copy loops and the frontend's per-connection goroutine (no third writer or reader) *)
+   the only goroutines are the copy loops and the frontend's per-connection goroutine (no third writer or reader); the
+   frontend's dial (the set-up step of the model: it succeeds or fails, it does not stay pending for ever) goes through
+   gorilla's DefaultDialer, which gives the handshake up after 45 s *)
 Theorem C16_source_bridge :
   bridgeBackendCopyLoops = ["defer wg.Done(); io.Copy(backendConn, frontendConn); backendConn.Close()"; "defer wg.Done(); io.Copy(frontendConn, backendConn); frontendConn.Close()"]%string /\
   bridgeFrontendCopyLoops = ["defer wg.Done(); io.Copy(backendConn, conn); backendConn.Close()"; "defer wg.Done(); io.Copy(conn, backendConn); conn.Close()"]%string /\
   bridgeBackendDefers = ["cancel()"; "wsConn.Close()"; "backendConn.Close()"]%string /\
   bridgeLimitCalls = [] /\
+  bridgeDialCallees = ["websocket.DefaultDialer.DialContext"; "backendURL.String"; "fmt.Errorf"]%string /\
   bridgeGoroutines = ["Handler: go func"; "Handler: go func"; "tcp-bridge-frontend main: go func"; "tcp-bridge-frontend main: go func"; "tcp-bridge-frontend main: go func"]%string.
 Proof. repeat split; reflexivity. Qed.
 Print Assumptions C16_source_bridge.
